@@ -105,3 +105,25 @@ func (g *faultyGetter) Get(url string) (map[string][]string, []byte, error) {
 	}
 	return g.inner.Get(url)
 }
+
+// certOddity is a legal but unusual feature of a certificate that makes standard path validation stop
+// early, before any path to an anchor is built.
+type certOddity struct {
+	name string
+	edit func(*world.CertSpec)
+}
+
+func certOddities(at time.Time) []certOddity {
+	past := world.Window{NotBefore: at.AddDate(-3, 0, 0), NotAfter: at.AddDate(0, 0, -30)}
+	future := world.Window{NotBefore: at.AddDate(0, 0, 30), NotAfter: at.AddDate(8, 0, 0)}
+	return []certOddity{
+		{"expired", func(s *world.CertSpec) { s.Win = past }},
+		{"not-yet-valid", func(s *world.CertSpec) { s.Win = future }},
+		{"critical-extra-ext", func(s *world.CertSpec) { s.ExtraCritical = true }},
+		{"unknown-critical-ext", func(s *world.CertSpec) { s.UnknownCritical = true }},
+		{"eku-client-auth-only", func(s *world.CertSpec) { s.EKU = []x509.ExtKeyUsage{x509.ExtKeyUsageClientAuth} }},
+		{"aki-absent", func(s *world.CertSpec) { s.AKI = world.AKIAbsent }},
+		{"aki-issuer-serial", func(s *world.CertSpec) { s.AKI = world.AKIIssuerSerial }},
+		{"key-usage-none", func(s *world.CertSpec) { s.KeyUsage = 0 }},
+	}
+}
